@@ -21,6 +21,7 @@ pub fn def() -> PropDef {
         block: 1,
         flavours: &["tokio"],
         outcome: None,
+        extra_profiles: &["C02", "C13", "C17"],
     }
 }
 
@@ -119,8 +120,8 @@ pub fn check(v: &View) -> Vec<Violation> {
             };
             let d = total_sleep(work);
             let is_call = matches!(o.inner, Op::Call { .. });
-            let died_during = a.dead.is_some_and(|x| c.exit.is_none() && first_abandon.is_none() && spec.timeout.is_none() && x > c.enter);
-            match spec.timeout {
+            let died_during = a.dead.is_some_and(|x| c.exit.is_none() && first_abandon.is_none() && spec.effective_timeout().is_none() && x > c.enter);
+            match spec.effective_timeout() {
                 None => {
                     crate::log::probe("c11_no_timeout_control");
                     if c.exit.is_none() && !died_during && !v.fault_injected(a) && v.out.outcome.cap_phase == 0 && v.out.outcome.quiescent_at_end {
@@ -128,7 +129,7 @@ pub fn check(v: &View) -> Vec<Violation> {
                     }
                 }
                 Some(t) => {
-                    let sig = if spec.fail_on_timeout { "fail" } else { "continue" };
+                    let sig = if spec.effective_fail_on_timeout() { "fail" } else { "continue" };
                     if d + 1 == t || d == t + 1 {
                         crate::log::probe("c11_boundary");
                     }
@@ -192,7 +193,7 @@ pub fn check(v: &View) -> Vec<Violation> {
                                 }
                                 // what happens next
                                 let next = cbs.get(i + 1);
-                                if spec.fail_on_timeout {
+                                if spec.effective_fail_on_timeout() {
                                     crate::log::probe("c11_fail_on_timeout");
                                     if let Some(n) = next {
                                         out.push(violation(P, "callback-after-timeout-failure", sig, format!("actor {aidx}: fail_on_timeout is set, message {} timed out, yet callback {:?}/{} ran afterwards", c.id, n.cb, n.id)));
@@ -213,7 +214,7 @@ pub fn check(v: &View) -> Vec<Violation> {
             }
         }
         // fail_on_timeout: awaiters see the failure
-        if spec.fail_on_timeout && first_abandon.is_some() {
+        if spec.effective_fail_on_timeout() && first_abandon.is_some() {
             for o in v.ops.iter().filter(|o| o.target == Some(aidx) && matches!(o.inner, Op::Await { .. }) && o.ended()) {
                 if matches!(o.res, Some(Res::Ok)) {
                     out.push(violation(P, "timeout-failure-reported-graceful", "fail", format!("actor {aidx}: terminated by a handler timeout but awaiting the address returned Ok")));
@@ -233,7 +234,7 @@ pub fn check(v: &View) -> Vec<Violation> {
 pub fn nontrivial(v: &View) -> bool {
     for a in v.actors.values() {
         let Some(aidx) = a.aidx else { continue };
-        let Some(t) = v.sc.spec_of(aidx).timeout else { continue };
+        let Some(t) = v.sc.spec_of(aidx).effective_timeout() else { continue };
         let cbs: Vec<&CbRec> = v.cbs_of(a).collect();
         for (i, c) in cbs.iter().enumerate() {
             let Some(o) = v.ops.iter().find(|o| o.msg_id() == Some(c.id)) else { continue };
